@@ -416,7 +416,10 @@ def shapes(ctx):
     s = Code(P, f)
     checks = [
         ('P[R <= 1] = amplitude * np.exp(1j * 2 * np.pi * self.data[0][k][0])'
-         in s, 'pupil = amplitude exp(i 2 pi W) inside the unit disk'),
+         in s or ('P[R <= 1] = amplitude * np.exp(1j * 2 * np.pi * phase)' in s
+                  and 'opd = self.data[0][k][0]' in s and
+                  'phase = np.where(lit, opd, 0)' in s),
+         'pupil = amplitude exp(i 2 pi W) inside the unit disk'),
         ('x = np.linspace(-1, 1, self.num_rays)' in s,
          'pupil grid spans [-1, 1]^2'),
         ('P = np.zeros_like(x, dtype=complex)' in s, 'zero outside the disk'),
@@ -730,6 +733,16 @@ def psf_norm(ctx):
                 '$a = $I * np.count_nonzero($I) / np.sum($I)'):
         for b in find_seq(g, [pat, '$P[R <= 1] = $a * np.exp($phase)']):
             ok = True
+    # masked form: lit = (I > 0) & isfinite(W); a = where(lit, I, 0) /
+    # mean(I[lit]); the phase of dark samples is set to 0 (their amplitude is
+    # 0, and 0 * exp(i nan) would be nan)
+    masked = False
+    for b in find_seq(g, ['$lit = ($I > 0) & np.isfinite($W)',
+                          '$a = np.where($lit, $I, 0) / np.mean($I[$lit])',
+                          '$ph = np.where($lit, $W, 0)',
+                          '$P[R <= 1] = $a * np.exp(1j * 2 * np.pi * $ph)']):
+        ok = True
+        masked = True
     whole = find_seq(g, ['$a = $I / np.mean($I)',
                          '$P[R <= 1] = $a * np.exp($phase)'])
     if ok:
@@ -755,7 +768,8 @@ def psf_norm(ctx):
         res.fail(ctx.finding('PSF-NORM', g, g.node,
                              'amplitude is not the traced intensity',
                              construct='amplitude source'))
-    if find(g, 'np.exp(1j * 2 * np.pi * self.data[0][k][0])'):
+    if find(g, 'np.exp(1j * 2 * np.pi * self.data[0][k][0])') or (
+            masked and find_seq(g, ['$W = self.data[0][k][0]'])):
         res.ok('phase = 2 pi OPD[waves]')
     else:
         res.fail(ctx.finding('PSF-NORM', g, g.node,
@@ -781,6 +795,19 @@ def psf_norm(ctx):
         res.fail(ctx.finding('PSF-NORM', cp, cp.node,
                              'PSF is not |FFT|^2 scaled by the reference '
                              'peak to 100', construct='PSF scaling'))
+    # a ray that did not reach the image has intensity 0 and may have an
+    # undefined (nan) path; 0 * exp(i nan) = nan would poison the whole FFT
+    if masked:
+        res.ok('dark samples (intensity 0 or no path) enter the pupil as 0')
+    else:
+        res.fail(ctx.finding(
+            'PSF-NORM', g, g.node,
+            'the pupil multiplies the amplitude of every sample by '
+            'exp(i 2 pi W): for a ray lost to total internal reflection / a '
+            'missed surface W is nan and 0 * exp(i nan) = nan, so one failed '
+            'ray turns PSF, Strehl ratio and FFT MTF into nan '
+            '(UVReflectingMicroscope sample)',
+            construct='dark samples not masked'))
     if find(sr, 'return self.psf[self.grid_size // 2, self.grid_size // 2] '
                 '/ 100'):
         res.ok('Strehl = central pixel / 100')
